@@ -781,6 +781,24 @@ func refusableSubjects() []*subject {
 		s.MayRefuse = true
 		out = append(out, s)
 	}
+	// PRelu on a rank-0 x (refused on the pinned tree, KF-C10-2), with a slope it can and one it cannot be combined with
+	for name, slope := range map[string][]int{"slope()": {}, "slope-not-broadcastable(3)": {3}} {
+		oc := &hx.OpCase{Op: "PRelu", NOut: 1, Route: "model", Dyn: true, Inputs: hx.ToTJs([]*ref.T{ref.FromF(ref.F32, []int{}, -1.5), f(2, slope...)}), Init: []bool{false, false}}
+		model, feed, outNames := hx.SingleNodeModel(oc)
+		if _, err := refRunModel(model, feed); err != nil {
+			// the reference refuses the combination as well: the subject then only serves through what a failing call leaves behind
+			oc2 := &hx.OpCase{Op: "PRelu", NOut: 1, Route: "model", Dyn: true, Inputs: hx.ToTJs([]*ref.T{ref.FromF(ref.F32, []int{}, -1.5), ref.FromF(ref.F32, []int{}, 0.5)}), Init: []bool{false, false}}
+			refM, _, _ := hx.SingleNodeModel(oc2)
+			s := newSubject("refusable:PRelu[rank-0-x,"+name+"]", model, feed, nil, nil, "op=PRelu", "single-node", "refusable") // no output is compared
+			s.MayRefuse, s.RefModel = true, refM
+			s.AlwaysRefused = true
+			out = append(out, s)
+			continue
+		}
+		s := newSubject("refusable:PRelu[rank-0-x,"+name+"]", model, feed, outNames, nil, "op=PRelu", "single-node", "refusable")
+		s.MayRefuse = true
+		out = append(out, s)
+	}
 	// a node list that is not topologically sorted (ONNX requires the order; an executor may learn to cope)
 	{
 		mk := func(order []int) []byte {
